@@ -129,6 +129,10 @@ func predMeta(m MetaCase, o *evid.Obs) error {
 			return nil
 		}
 	}
+	if thresholdSensitive(&c, &ref) {
+		o.Discard("dontcare:value-within-1e-9-of-comparison-threshold")
+		return nil
+	}
 	o.Tag("meta:" + m.Kind)
 	TagMetric(o, &c)
 	text := c.Q.String()
